@@ -2296,8 +2296,9 @@ func (m *ExpirationManager) CreateOrFetchRevocationLeaseByToken(ctx context.Cont
 		leaseID = fmt.Sprintf("%s.%s", leaseID, tokenNS.ID)
 	}
 
-	// Load the entry
-	le, err := m.loadEntry(ctx, leaseID)
+	// Load the entry; it lives in the token's namespace, which may differ
+	// from the namespace of the request the context belongs to.
+	le, err := m.loadEntry(saltCtx, leaseID)
 	if err != nil {
 		return "", err
 	}
